@@ -37,6 +37,9 @@ SPEC = dict(
          'two good reads, then chown / chmod o+w / g+w with a non-root group / removal / re-pointed symlink, four more reads '
          '(each must return an error and start nothing), repair, a read, the change again, a read - 6 apis x direct/symlink; '
          'half of the random sequences also stay on one api. '
+         'fan2go as a NON-ROOT user: 96 calls (6 apis, Validate with 2 variants; direct/symlink) are performed in a child process '
+         'of the harness running with uid = gid = 65534 on files owned by root / by that very user / by a third user / with a '
+         'non-root group with and without g+w: only root-owned files pass, whatever the effective uid. '
          'EVERY start of a script appends its id and stat -L of its own path to a marker file, so the observation is the list '
          'of starts inside one call with the attributes at each start. Non-trivial = at least one call on a path that leads to an '
          'existing file; distinct = distinct (operations, observations) terms.',
